@@ -26,8 +26,8 @@ CLAIMED = {
    text='(i) CheckStopCondition against the stop rule and the ranking function itersLimit-iterations for all values (solver); (ii) one real iteration from an arbitrary invariant state: iterations, reported trials and evaluations advance by one, accuracy = min(previous, length of the subdivided interval); (iii) the real Process.Solve from an arbitrary invariant state with symbolic eps / itersLimit and room for at most one more iteration: no evaluation once the stop condition holds, exactly one otherwise, nothing swallowed; (iv) scenarios through the public interface with symbolic eps in (0,2) and arbitrary objective values (fresh itersLimit 1..3; reachable prefixes with binding budget; batches then Solve; Solve twice) against the stop rule recomputed from the observed history. (ii)+(iii)+(i) give termination and exactness for every run length by induction.',
    note='z3; symex proxies; QueueStub / EvolventStub in the symbolic-state jobs; induction on paper; floats as reals (interval underflow below float resolution is outside)'),
  'C04': dict(level='model_checking', ref='5/C04',
-   text='One real iteration from an arbitrary invariant state with all values symbolic (ties included): the reported best is an item of the record, owns its value, nothing evaluated is smaller, a strictly better trial takes over; plus scenarios through the public interface (fresh and reachable prefixes + arbitrary values, mixed batches and Solve, a second live solver iterated in between) in which the optimum clauses are checked inside every listener callback, in polled, kept and returned Solutions against the log of completed evaluations.',
-   note='z3; symex proxies; stubs as in C02; NaN values and refinement outside'),
+   text='One real iteration from an arbitrary invariant state with all values symbolic (ties included): the reported best is an item of the record, owns its value, nothing evaluated is smaller, a strictly better trial takes over; plus scenarios through the public interface (fresh and reachable prefixes + arbitrary values, mixed batches and Solve, a second live solver iterated in between) in which the optimum clauses are checked inside every listener callback, in polled, kept and returned Solutions (also after local refinement under the minimize stub, with a Problem that returns new value holders, in a very narrow box and when the accuracy criterion ends the run) against the log of completed evaluations.',
+   note='z3; symex proxies; stubs as in C02; refinement through the minimize contract stub; NaN values outside'),
  'C06': dict(level='model_checking', ref='5/C06',
    text='One real iteration from an arbitrary invariant state: exactly one new item linked into the subdivided interval, both new lengths (x-x_left)^(1/N), frame conditions for every other item, own value holder, value = objective at the stored point, point = evolvent image; plus scenarios through the public interface (fresh, reachable prefixes + arbitrary values, failed first trial then resume, second live solver of another dimension) where the whole traversal, links, count, lengths, images and values are compared with the log of completed evaluations.',
    note='z3; symex proxies; stubs as in C02; floats as reals'),
